@@ -94,20 +94,28 @@ type world struct {
 	rt    wazero.Runtime
 	cache wazero.CompilationCache
 	ctx   context.Context
+	// sharedCache: the cache object belongs to several worlds (closed by whoever created it)
+	sharedCache bool
 }
 
 // newWorld creates a runtime whose compilation cache lives on the installed sim-disk.
-func newWorld() (*world, error) {
+func newWorld() (*world, error) { return newWorldOn(nil) }
+
+// newWorldOn: a runtime on the given CompilationCache object (nil: its own, over the same directory).
+func newWorldOn(shared wazero.CompilationCache) (*world, error) {
 	ctx := context.Background()
-	cache, err := wazero.NewCompilationCacheWithDir(cacheDir)
-	if err != nil {
-		return nil, err
+	cache := shared
+	if cache == nil {
+		var err error
+		if cache, err = wazero.NewCompilationCacheWithDir(cacheDir); err != nil {
+			return nil, err
+		}
 	}
 	rt := wazero.NewRuntimeWithConfig(ctx, wazero.NewRuntimeConfigCompiler().WithCompilationCache(cache))
 	if _, err := wasi_snapshot_preview1.Instantiate(ctx, rt); err != nil {
 		return nil, err
 	}
-	_, err = rt.NewHostModuleBuilder("env").NewFunctionBuilder().
+	_, err := rt.NewHostModuleBuilder("env").NewFunctionBuilder().
 		WithGoModuleFunction(api.GoModuleFunc(func(ctx context.Context, mod api.Module, stack []uint64) {
 			tag, v := int32(uint32(stack[0])), int32(uint32(stack[1]))
 			stack[0] = uint64(uint32(v*3 + tag))
@@ -115,12 +123,14 @@ func newWorld() (*world, error) {
 	if err != nil {
 		return nil, err
 	}
-	return &world{rt: rt, cache: cache, ctx: ctx}, nil
+	return &world{rt: rt, cache: cache, ctx: ctx, sharedCache: shared != nil}, nil
 }
 
 func (w *world) close() {
 	w.rt.Close(w.ctx)
-	w.cache.Close(w.ctx)
+	if !w.sharedCache {
+		w.cache.Close(w.ctx)
+	}
 }
 
 // entryFiles lists regular files of the cache directory that are not temp files.
@@ -523,6 +533,96 @@ func writeFaults(t *tape.Tape, cfg sim.Config, res *sim.Result, p *plan.Plan, bi
 	res.Logf("%d transient write faults enumerated", fired)
 }
 
+// concurrentWarm: the entry is on disk already (warm start) and TWO runtimes share one CompilationCache
+// object (one engine): both compile the module, instantiate it and run the plan, as baton-scheduled tasks
+// with switches at ANY yield point (the window of interest is inside the engine, not at a disk syscall).
+func concurrentWarm(t *tape.Tape, res *sim.Result, p *plan.Plan, bin []byte, refPath string, ref []byte) {
+	d := simos.NewDisk()
+	simos.Current = d
+	d.Install(refPath, ref)
+	cache, err := wazero.NewCompilationCacheWithDir(cacheDir)
+	if err != nil {
+		panic(err)
+	}
+	defer func() { simos.Current = nil }()
+	w1, err := newWorldOn(cache)
+	if err != nil {
+		panic(err)
+	}
+	w2, err := newWorldOn(cache)
+	if err != nil {
+		panic(err)
+	}
+	d.Arm()
+	var msgs [2]string
+	var pans [2]any
+	prob := []int{2, 6, 20}[t.Choose(3)]
+	stagger := 0
+	task := func(i int, w *world) func() {
+		return func() {
+			defer func() {
+				if r := recover(); r != nil {
+					if _, ok := r.(simos.CrashSentinel); ok {
+						panic(r)
+					}
+					pans[i] = r
+				}
+			}()
+			// the second user arrives a tape-chosen number of scheduling points later
+			for n := stagger * i; n > 0; n-- {
+				simrt.Yield("stagger")
+			}
+			cm, err := w.rt.CompileModule(w.ctx, bin)
+			if err != nil {
+				msgs[i] = "compile: " + err.Error()
+				return
+			}
+			msgs[i] = runPlan(w, cm, p)
+		}
+	}
+	// schedule: the first user runs until a tape-chosen scheduling point INSIDE the engine's cache code
+	// (counted over the yield sites of engine_cache.go / engine.go), then the other user runs for as long
+	// as it can; besides that, rare random switches
+	changeAt, seen := t.Choose(40), 0
+	choose := func(en []*simrt.Task, cur *simrt.Task, site string) int {
+		if cur == nil {
+			return 0
+		}
+		if strings.Contains(site, "engine_cache.go") || strings.Contains(site, "wazevo/engine.go") {
+			if seen++; seen == changeAt+1 && len(en) > 1 {
+				return 1
+			}
+		}
+		if t.Chance(1, 50*prob) && len(en) > 1 {
+			return 1
+		}
+		return 0
+	}
+	s := simrt.Run(choose, 200000, false, task(0, w1), task(1, w2))
+	res.Stat("probe.warm_shared_cache_concurrent_users", 1)
+	res.Stat("probe.task_switches", int64(s.Switches))
+	if s.Deadlock {
+		res.Fail("deadlock", "two users of a warm shared cache deadlocked: %s", s.DeadlockInfo)
+		return
+	}
+	for i := 0; i < 2; i++ {
+		if pans[i] != nil {
+			res.Fail("writer-panic", "warm start, two runtimes on one CompilationCache: user %d panicked: %v", i, pans[i])
+			return
+		}
+		if msgs[i] != "" {
+			res.Fail("restart-wrong-code", "warm start, two runtimes on one CompilationCache: user %d: %s", i, msgs[i])
+			return
+		}
+	}
+	w1.close()
+	w2.close()
+	cache.Close(context.Background())
+	res.Nontrivial = s.Switches > 0
+	res.Shape = sim.ShapeOf("warm", fmt.Sprint(s.Switches))
+	res.Steps = int64(s.Yields)
+}
+
 func truncation(t *tape.Tape, cfg sim.Config, res *sim.Result, p *plan.Plan, bin []byte, refPath string, ref []byte) {
 	lens := map[int]bool{}
 	if cfg.Tier == "thorough" {
@@ -671,6 +771,10 @@ func readFaults(t *tape.Tape, cfg sim.Config, res *sim.Result, p *plan.Plan, bin
 }
 
 func concurrent(t *tape.Tape, cfg sim.Config, res *sim.Result, p *plan.Plan, bin []byte, refPath string, ref []byte) {
+	if t.Chance(1, 4) {
+		concurrentWarm(t, res, p, bin, refPath, ref)
+		return
+	}
 	d := simos.NewDisk()
 	simos.Current = d
 	w1, err := newWorld()
